@@ -965,6 +965,467 @@ theorem sticky_states (s : Shape) (ho : ownLeaves s = true) (hn : s.noStream = t
         · right; exact C04_stop_sticky s ho hn st c hc h1
       · left; simp [h1]
 
+/-! ### not earlier: without `stop()` and without fail-fast nothing sets `shouldStop` -/
+/-- no result below has `shouldStop` set -/
+def Calm (s : Shape) (st : St s) : Prop := ∀ l ∈ leaves s st, LeafSt.shouldStop l = false
+
+/- `failfast` is set nowhere in the graph -/
+mutual
+def FFree : (s : Shape) → St s → Prop
+  | .sink _, st => st.failfast = false
+  | .tt _, st => st.failfast = false
+  | .text _, st => st.tt.failfast = false
+  | .tbt, st => st.tt.failfast = false
+  | .etod c, (own, inner) => own.failfast = false ∧ FFree c inner
+  | .deco c, st => FFree c st
+  | .tagger _ _ c, st => FFree c st
+  | .tfr c, (own, inner) => own.tt.failfast = false ∧ FFree c inner
+  | .multi cs, (_, inner) => FFreeL cs inner
+  | .e2s c, (own, inner) => own.failfast = false ∧ FFree c inner
+def FFreeL : (cs : List Shape) → StL cs → Prop
+  | [], _ => True
+  | c :: cs, (x, xs) => FFree c x ∧ FFreeL cs xs
+end
+
+mutual
+theorem ffree_read : ∀ (s : Shape) (st : St s), FFree s st → failfastOf s st = false
+  | .sink _, _, h => h
+  | .tt _, _, h => h
+  | .text _, _, h => h
+  | .tbt, _, h => h
+  | .etod c, (own, inner), h => by
+      simp only [failfastOf]; split
+      · exact ffree_read c inner h.2
+      · exact h.1
+  | .deco _, _, _ => rfl
+  | .tagger _ _ _, _, _ => rfl
+  | .tfr _, (own, _), h => h.1
+  | .e2s _, (own, _), h => h.1
+  | .multi cs, (_, inner), h => by
+      simp only [failfastOf]
+      have := ffreeL_read cs inner h
+      cases hl : failfastL cs inner with
+      | nil => rfl
+      | cons b bs => rw [hl] at this; simpa using this b (by simp)
+theorem ffreeL_read : ∀ (ss : List Shape) (st : StL ss), FFreeL ss st → ∀ b ∈ failfastL ss st, b = false
+  | [], _, _ => by simp [failfastL]
+  | s :: ss, (x, xs), h => by
+      simp only [failfastL, List.mem_cons]
+      intro b hb
+      rcases hb with rfl | hb
+      · exact ffree_read s x h.1
+      · exact ffreeL_read ss xs h.2 b hb
+end
+
+section exact
+variable {σ : Type} (I : Iface σ)
+/-- without fail-fast firing, an `ExtendedToOriginalDecorator` sends exactly the forwarded form of the call -/
+theorem etodStep_exact (own : EtodOwn) (inner : σ) (c : Call) (hc : c ≠ .stop)
+    (hff : isBadAdd c = true → etodFailfast I own ((etodMain I.caps c).foldl I.step inner) = false) :
+    (etodStep I own inner c).2 = (etodMain I.caps c).foldl I.step inner := by
+  cases c with
+  | add k t a =>
+    have fin : ∀ (p : EtodOwn × σ), etodFailfast I p.1 p.2 = false → etodFinally I p = p := by
+      intro p h; simp [etodFinally, h]
+    cases k <;> simp only [etodStep, etodMain, Spec.C08.degradeCall, Spec.C08.degradeKind, Spec.C08.degradeArg,
+      List.foldl_cons, List.foldl_nil, isBadAdd, Kind.bad, forall_const] at hff ⊢
+    · cases a <;> rfl
+    · rw [fin _ (by cases a <;> simpa using hff)]
+      cases a <;> rfl
+    · rw [fin _ (by cases a <;> simpa using hff)]
+      cases a <;> rfl
+    · split <;> cases a <;> simp_all
+    · split <;> cases a <;> simp_all
+    · by_cases hu : I.caps.uxs = true
+      · simp only [hu, Bool.not_true, Bool.false_eq_true, ite_false, ite_true] at hff ⊢
+        rw [fin _ (by cases a <;> simpa using hff)]
+        cases a <;> rfl
+      · simp only [hu, Bool.not_false, ite_true, Bool.false_eq_true, ite_false] at hff ⊢
+        have h1 := fin (own, I.step inner (.add .failure t (.exc .synth))) (by simpa using hff)
+        rw [h1, h1]
+  | stop => exact absurd rfl hc
+  | startTest t => rfl
+  | stopTest t => rfl
+  | startTestRun => simp only [etodStep, etodMain]; split <;> simp
+  | stopTestRun => simp only [etodStep, etodMain]; split <;> simp
+  | tags n g => simp only [etodStep, etodMain]; split <;> simp
+  | time d => simp only [etodStep, etodMain]; split <;> simp
+  | progress => simp only [etodStep, etodMain]; split <;> simp
+  | done => simp only [etodStep, etodMain]; split <;> simp
+  | setFailfast b => simp only [etodStep, etodMain]; split <;> simp
+
+/-- the decorator's own `failfast` changes only by an assignment that the target cannot take -/
+theorem etodStep_ownff (own : EtodOwn) (inner : σ) (c : Call) :
+    (etodStep I own inner c).1.failfast =
+      match c with
+      | .setFailfast b => if I.caps.failfast then own.failfast else b
+      | _ => own.failfast := by
+  cases c with
+  | add k t a =>
+    cases k <;> simp only [etodStep] <;> (repeat' split) <;> simp [etodFinally, etodStop] <;> (repeat' split) <;> rfl
+  | stop => simp only [etodStep, etodStop]; split <;> rfl
+  | tags n g => simp only [etodStep]; split <;> rfl
+  | setFailfast b => simp only [etodStep]; split <;> rfl
+  | _ => rfl
+end exact
+
+def notFFTrue : Call → Bool
+  | .setFailfast true => false
+  | _ => true
+
+theorem main_notFF (caps : Caps) (c : Call) (hc : notFFTrue c = true) : ∀ x ∈ etodMain caps c, notFFTrue x = true := by
+  cases c <;> simp [etodMain, Spec.C08.degradeCall, notFFTrue] at hc ⊢ <;> (try split) <;> simp_all [notFFTrue]
+
+theorem tfrBlock_notFF (own : TfrOwn) (k : Kind) (t : Nat) (a : Arg) : ∀ x ∈ tfrBlock own k t a, notFFTrue x = true := by
+  have : (tfrBlock own k t a).all notFFTrue = true := by
+    cases h1 : anyTags own.globalTags <;> cases h2 : anyTags own.testTags <;> simp [tfrBlock, h1, h2, notFFTrue]
+  exact fun x hx => List.all_eq_true.mp this x hx
+
+theorem tt_ffree (s : TT) (c : Call) (hc : notFFTrue c = true) (h : s.failfast = false) : (ttStep s c).failfast = false := by
+  cases c with
+  | add k t a => cases k <;> simp [ttStep, h, Call.logged]
+  | setFailfast b => cases b <;> simp [notFFTrue] at hc; simp [ttStep, Call.logged]
+  | _ => simp [ttStep, h, Call.logged, TT.reset]
+
+mutual
+theorem ffree_steps : ∀ (s : Shape), s.noStream = true → ∀ (cs : List Call), (∀ x ∈ cs, notFFTrue x = true) →
+    ∀ (st : St s), FFree s st → FFree s (cs.foldl (step s) st)
+  | _, _, [], _, _, h => h
+  | .sink f, hn, c :: cs, hc, st, h => by
+      rw [List.foldl_cons]
+      refine ffree_steps (.sink f) hn cs (fun x hx => hc x (List.mem_cons_of_mem _ hx)) _ ?_
+      have hcc := hc c List.mem_cons_self
+      simp only [FFree] at h ⊢
+      cases c with
+      | setFailfast b => cases b <;> simp [notFFTrue] at hcc; simp [step, sinkStep, Call.logged]
+      | _ => simp [step, sinkStep, Call.logged, h] <;> (repeat' split) <;> simp [h]
+  | .tt ff, hn, c :: cs, hc, st, h => by
+      rw [List.foldl_cons]
+      exact ffree_steps (.tt ff) hn cs (fun x hx => hc x (List.mem_cons_of_mem _ hx)) _
+        (tt_ffree st c (hc c List.mem_cons_self) h)
+  | .text ff, hn, c :: cs, hc, st, h => by
+      rw [List.foldl_cons]
+      refine ffree_steps (.text ff) hn cs (fun x hx => hc x (List.mem_cons_of_mem _ hx)) _ ?_
+      have := tt_ffree st.tt c (hc c List.mem_cons_self) h
+      cases c <;> simpa [FFree, step, textStep] using this
+  | .tbt, hn, c :: cs, hc, st, h => by
+      rw [List.foldl_cons]
+      refine ffree_steps .tbt hn cs (fun x hx => hc x (List.mem_cons_of_mem _ hx)) _ ?_
+      have := tt_ffree st.tt c (hc c List.mem_cons_self) h
+      cases c <;> simpa [FFree, step, tbtStep] using this
+  | .etod ch, hn, c :: cs, hc, (own, inner), h => by
+      rw [List.foldl_cons]
+      refine ffree_steps (.etod ch) hn cs (fun x hx => hc x (List.mem_cons_of_mem _ hx)) _ ?_
+      have hcc := hc c List.mem_cons_self
+      obtain ⟨k, hk⟩ := etodStep_emits ⟨caps ch, step ch, failfastOf ch⟩ own inner c
+      have h2 : (step (.etod ch) (own, inner) c).2
+          = (etodMain (caps ch) c ++ List.replicate k Call.stop).foldl (step ch) inner := hk
+      have h1 := etodStep_ownff ⟨caps ch, step ch, failfastOf ch⟩ own inner c
+      refine ⟨?_, ?_⟩
+      · show (etodStep ⟨caps ch, step ch, failfastOf ch⟩ own inner c).1.failfast = false
+        rw [h1]
+        cases c with
+        | setFailfast b => cases b <;> simp [notFFTrue] at hcc; simp [h.1]
+        | _ => exact h.1
+      · show FFree ch (step (.etod ch) (own, inner) c).2
+        rw [h2]
+        refine ffree_steps ch (by simpa [Shape.noStream] using hn) _ ?_ inner h.2
+        intro x hx
+        rcases List.mem_append.mp hx with hx | hx
+        · exact main_notFF _ c hcc x hx
+        · rw [List.eq_of_mem_replicate hx]; rfl
+  | .deco ch, hn, c :: cs, hc, st, h => by
+      rw [List.foldl_cons]
+      refine ffree_steps (.deco ch) hn cs (fun x hx => hc x (List.mem_cons_of_mem _ hx)) _ ?_
+      have h1 := ffree_steps ch (by simpa [Shape.noStream] using hn) [c] (by simpa using hc c List.mem_cons_self) st h
+      simp only [FFree] at h ⊢
+      cases c <;> first | exact h1 | exact h
+  | .tagger n g ch, hn, c :: cs, hc, st, h => by
+      rw [List.foldl_cons]
+      refine ffree_steps (.tagger n g ch) hn cs (fun x hx => hc x (List.mem_cons_of_mem _ hx)) _ ?_
+      have hn' : ch.noStream = true := by simpa [Shape.noStream] using hn
+      have h1 := ffree_steps ch hn' [c] (by simpa using hc c List.mem_cons_self) st h
+      simp only [FFree] at h ⊢
+      cases c with
+      | startTest t => exact ffree_steps ch hn' [.startTest t, .tags n g] (by simp [notFFTrue]) st h
+      | done => exact h
+      | setFailfast b => exact h
+      | _ => exact h1
+  | .tfr ch, hn, c :: cs, hc, (own, inner), h => by
+      rw [List.foldl_cons]
+      refine ffree_steps (.tfr ch) hn cs (fun x hx => hc x (List.mem_cons_of_mem _ hx)) _ ?_
+      have hn' : ch.noStream = true := by simpa [Shape.noStream] using hn
+      have hcc := hc c List.mem_cons_self
+      have hown : ∀ c', notFFTrue c' = true → (ttStep own.tt c').failfast = false := fun c' h' => tt_ffree own.tt c' h' h.1
+      cases c with
+      | add k t a => exact ⟨h.1, ffree_steps ch hn' _ (tfrBlock_notFF own k t a) inner h.2⟩
+      | startTestRun => exact ⟨hown _ rfl, ffree_steps ch hn' [.startTestRun] (by simp [notFFTrue]) inner h.2⟩
+      | stopTestRun => exact ⟨h.1, ffree_steps ch hn' [.stopTestRun] (by simp [notFFTrue]) inner h.2⟩
+      | stop => exact ⟨h.1, ffree_steps ch hn' [.stop] (by simp [notFFTrue]) inner h.2⟩
+      | done => exact ⟨h.1, ffree_steps ch hn' [.done] (by simp [notFFTrue]) inner h.2⟩
+      | startTest t => exact ⟨hown _ rfl, h.2⟩
+      | stopTest t => exact ⟨hown _ rfl, h.2⟩
+      | tags n g => simp only [step, tfrStep]; split <;> exact ⟨hown _ rfl, h.2⟩
+      | time d => exact ⟨hown _ rfl, h.2⟩
+      | setFailfast b => exact ⟨hown _ hcc, h.2⟩
+      | progress => exact h
+  | .multi ss, hn, c :: cs, hc, (own, inner), h => by
+      rw [List.foldl_cons]
+      refine ffree_steps (.multi ss) hn cs (fun x hx => hc x (List.mem_cons_of_mem _ hx)) _ ?_
+      have hn' : Shape.noStreamL ss = true := by simpa [Shape.noStream] using hn
+      have hcc := hc c List.mem_cons_self
+      simp only [FFree] at h ⊢
+      have h1 := ffreeL_step ss hn' c hcc inner h
+      cases c with
+      | progress => exact h
+      | startTestRun =>
+        simp only [step]
+        have hs := ffreeL_read ss inner h
+        have a1 := ffreeL_step ss hn' (.setFailfast false) rfl inner h
+        have hd : (failfastL ss inner).headD false = false := by
+          cases hl : failfastL ss inner with
+          | nil => rfl
+          | cons b bs => rw [hl] at hs; simpa using hs b (by simp)
+        have a2 := ffreeL_step ss hn' (.setFailfast ((failfastL ss inner).headD false)) (by rw [hd]; rfl) _ a1
+        have a3 := ffreeL_restore ss hn' _ (failfastL ss inner) hs a2
+        exact ffreeL_step ss hn' .startTestRun rfl _ a3
+      | _ => exact h1
+  | .e2s _, hn, _ :: _, _, _, _ => by simp [Shape.noStream] at hn
+theorem ffreeL_step : ∀ (ss : List Shape), Shape.noStreamL ss = true → ∀ (c : Call), notFFTrue c = true →
+    ∀ (st : StL ss), FFreeL ss st → FFreeL ss (stepL ss st c)
+  | [], _, _, _, _, _ => trivial
+  | s :: ss, hn, c, hc, (x, xs), h => by
+      simp only [Shape.noStreamL, Bool.and_eq_true] at hn
+      have := ffree_steps s hn.1 [c] (by simpa using hc) x h.1
+      exact ⟨by simpa using this, ffreeL_step ss hn.2 c hc xs h.2⟩
+theorem ffreeL_restore : ∀ (ss : List Shape), Shape.noStreamL ss = true → ∀ (st : StL ss) (saved : List Bool),
+    (∀ b ∈ saved, b = false) → FFreeL ss st → FFreeL ss (restoreL ss st saved)
+  | [], _, _, _, _, _ => trivial
+  | s :: ss, hn, (x, xs), saved, hs, h => by
+      simp only [Shape.noStreamL, Bool.and_eq_true] at hn
+      have hd : saved.headD false = false := by
+        cases saved with
+        | nil => rfl
+        | cons b bs => simpa using hs b (by simp)
+      have := ffree_steps s hn.1 [.setFailfast (saved.headD false)] (by rw [hd]; simp [notFFTrue]) x h.1
+      exact ⟨by simpa using this, ffreeL_restore ss hn.2 xs saved.tail (fun b hb => hs b (List.mem_of_mem_tail hb)) h.2⟩
+end
+
+def CalmL (ss : List Shape) (st : StL ss) : Prop := ∀ l ∈ leavesL ss st, LeafSt.shouldStop l = false
+
+theorem main_noStop (caps : Caps) (c : Call) (hc : c ≠ .stop) : ∀ x ∈ etodMain caps c, x ≠ Call.stop := by
+  cases c <;> simp [etodMain, Spec.C08.degradeCall] at hc ⊢ <;> (try split) <;> simp
+
+theorem main_noBad (caps : Caps) (c : Call) (hc : isBadAdd c = false) : ∀ x ∈ etodMain caps c, isBadAdd x = false := by
+  cases c with
+  | add k t a =>
+    have hk : Kind.bad (Spec.C08.degradeKind caps k) = Kind.bad k := by
+      cases k <;> simp only [Spec.C08.degradeKind] <;> (try split) <;> rfl
+    simpa [etodMain, Spec.C08.degradeCall, isBadAdd, hk] using hc
+  | _ => simp [etodMain] <;> (try split) <;> simp [isBadAdd]
+
+theorem tfrBlock_noStop (own : TfrOwn) (k : Kind) (t : Nat) (a : Arg) : ∀ x ∈ tfrBlock own k t a, x ≠ Call.stop := by
+  have : (tfrBlock own k t a).all (fun x => x != Call.stop) = true := by
+    cases h1 : anyTags own.globalTags <;> cases h2 : anyTags own.testTags <;> simp [tfrBlock, h1, h2]
+  intro x hx
+  simpa using List.all_eq_true.mp this x hx
+
+theorem tfrBlock_noBad (own : TfrOwn) (k : Kind) (t : Nat) (a : Arg) (hk : Kind.bad k = false) :
+    ∀ x ∈ tfrBlock own k t a, isBadAdd x = false := by
+  have : (tfrBlock own k t a).all (fun x => !isBadAdd x) = true := by
+    cases h1 : anyTags own.globalTags <;> cases h2 : anyTags own.testTags <;> simp [tfrBlock, h1, h2, isBadAdd, hk]
+  intro x hx
+  simpa using List.all_eq_true.mp this x hx
+
+/-- the side condition under which nothing can set `shouldStop`: fail-fast is set nowhere (and is not being set),
+or no bad outcome is among the calls -/
+def Safe (s : Shape) (st : St s) (cs : List Call) : Prop :=
+  (FFree s st ∧ ∀ x ∈ cs, notFFTrue x = true) ∨ (∀ x ∈ cs, isBadAdd x = false)
+
+theorem tt_calm (s : TT) (c : Call) (hc : c ≠ .stop) (hs : s.failfast = false ∨ isBadAdd c = false)
+    (h : s.shouldStop = false) : (ttStep s c).shouldStop = false := by
+  cases c with
+  | add k t a =>
+    rcases hs with hs | hs
+    · cases k <;> simp [ttStep, h, hs, Call.logged]
+    · cases k <;> simp [isBadAdd, Kind.bad] at hs <;> simp [ttStep, h, Call.logged]
+  | stop => exact absurd rfl hc
+  | _ => simp [ttStep, h, Call.logged, TT.reset]
+
+mutual
+theorem calm_steps : ∀ (s : Shape), s.noStream = true → ∀ (cs : List Call), (∀ x ∈ cs, x ≠ Call.stop) →
+    ∀ (st : St s), Safe s st cs → Calm s st → Calm s (cs.foldl (step s) st)
+  | _, _, [], _, _, _, h => h
+  | s, hn, c :: cs, hc, st, hs, h => by
+      rw [List.foldl_cons]
+      have hcc := hc c List.mem_cons_self
+      have hs1 : Safe s st [c] := by
+        rcases hs with ⟨hf, hx⟩ | hx
+        · exact .inl ⟨hf, by simpa using hx c List.mem_cons_self⟩
+        · exact .inr (by simpa using hx c List.mem_cons_self)
+      refine calm_steps s hn cs (fun x hx => hc x (List.mem_cons_of_mem _ hx)) _ ?_ (calm_step s hn c hcc st hs1 h)
+      rcases hs with ⟨hf, hx⟩ | hx
+      · refine .inl ⟨?_, fun x hx' => hx x (List.mem_cons_of_mem _ hx')⟩
+        have := ffree_steps s hn [c] (by simpa using hx c List.mem_cons_self) st hf
+        simpa using this
+      · exact .inr (fun x hx' => hx x (List.mem_cons_of_mem _ hx'))
+theorem calm_step : ∀ (s : Shape), s.noStream = true → ∀ (c : Call), c ≠ Call.stop →
+    ∀ (st : St s), Safe s st [c] → Calm s st → Calm s (step s st c)
+  | .sink f, _, c, hc, st, hs, h => by
+      have h0 : st.shouldStop = false := h (.sink f st) (by simp [leaves])
+      have hs' : st.failfast = false ∨ isBadAdd c = false := by
+        rcases hs with ⟨hf, _⟩ | hx
+        · exact .inl hf
+        · exact .inr (by simpa using hx)
+      intro l hl
+      simp only [leaves, List.mem_singleton] at hl
+      subst hl
+      simp only [LeafSt.shouldStop]
+      cases c with
+      | add k t a =>
+        rcases hs' with hs' | hs'
+        · simp [step, sinkStep, Call.logged, h0, hs'] <;> (repeat' split) <;> simp_all
+        · cases k <;> simp [isBadAdd, Kind.bad] at hs' <;>
+            simp [step, sinkStep, Call.logged, h0] <;> (repeat' split) <;> simp_all
+      | stop => exact absurd rfl hc
+      | _ => simp [step, sinkStep, Call.logged, h0] <;> (repeat' split) <;> simp_all
+  | .tt ff, _, c, hc, st, hs, h => by
+      have h0 : st.shouldStop = false := h (.tt st) (by simp [leaves])
+      have hs' : st.failfast = false ∨ isBadAdd c = false := by
+        rcases hs with ⟨hf, _⟩ | hx
+        · exact .inl hf
+        · exact .inr (by simpa using hx)
+      intro l hl
+      simp only [leaves, List.mem_singleton] at hl
+      subst hl
+      exact tt_calm st c hc hs' h0
+  | .text ff, _, c, hc, st, hs, h => by
+      have h0 : st.tt.shouldStop = false := h (.text st) (by simp [leaves])
+      have hs' : st.tt.failfast = false ∨ isBadAdd c = false := by
+        rcases hs with ⟨hf, _⟩ | hx
+        · exact .inl hf
+        · exact .inr (by simpa using hx)
+      intro l hl
+      simp only [leaves, List.mem_singleton] at hl
+      subst hl
+      have := tt_calm st.tt c hc hs' h0
+      cases c <;> simpa [LeafSt.shouldStop, step, textStep] using this
+  | .tbt, _, c, hc, st, hs, h => by
+      have h0 : st.tt.shouldStop = false := h (.tbt st) (by simp [leaves])
+      have hs' : st.tt.failfast = false ∨ isBadAdd c = false := by
+        rcases hs with ⟨hf, _⟩ | hx
+        · exact .inl hf
+        · exact .inr (by simpa using hx)
+      intro l hl
+      simp only [leaves, List.mem_singleton] at hl
+      subst hl
+      have := tt_calm st.tt c hc hs' h0
+      cases c <;> simpa [LeafSt.shouldStop, step, tbtStep] using this
+  | .etod ch, hn, c, hc, (own, inner), hs, h => by
+      have hn' : ch.noStream = true := by simpa [Shape.noStream] using hn
+      have hmain_ff : (∀ x ∈ [c], notFFTrue x = true) → ∀ x ∈ etodMain (caps ch) c, notFFTrue x = true :=
+        fun hx => main_notFF _ c (by simpa using hx)
+      have hex := etodStep_exact ⟨caps ch, step ch, failfastOf ch⟩ own inner c hc (by
+        intro hb
+        rcases hs with ⟨hf, hx⟩ | hx
+        · have hf' := ffree_steps ch hn' _ (hmain_ff hx) inner hf.2
+          simp only [etodFailfast]
+          split
+          · exact ffree_read ch _ hf'
+          · exact hf.1
+        · have : isBadAdd c = false := by simpa using hx
+          rw [this] at hb; cases hb)
+      have h2 : (step (.etod ch) (own, inner) c).2 = (etodMain (caps ch) c).foldl (step ch) inner := hex
+      show Calm ch (step (.etod ch) (own, inner) c).2
+      rw [h2]
+      refine calm_steps ch hn' _ (main_noStop _ c hc) inner ?_ h
+      rcases hs with ⟨hf, hx⟩ | hx
+      · exact .inl ⟨hf.2, hmain_ff hx⟩
+      · exact .inr (main_noBad _ c (by simpa using hx))
+  | .deco ch, hn, c, hc, st, hs, h => by
+      have h1 := calm_step ch (by simpa [Shape.noStream] using hn) c hc st hs h
+      show Calm ch (step (.deco ch) st c)
+      cases c <;> first | exact h1 | exact h
+  | .tagger n g ch, hn, c, hc, st, hs, h => by
+      have hn' : ch.noStream = true := by simpa [Shape.noStream] using hn
+      have h1 := calm_step ch hn' c hc st hs h
+      show Calm ch (step (.tagger n g ch) st c)
+      cases c with
+      | startTest t =>
+        refine calm_steps ch hn' [.startTest t, .tags n g] (by simp) st ?_ h
+        rcases hs with ⟨hf, _⟩ | _
+        · exact .inl ⟨hf, by simp [notFFTrue]⟩
+        · exact .inr (by simp [isBadAdd])
+      | done => exact h
+      | setFailfast b => exact h
+      | _ => exact h1
+  | .tfr ch, hn, c, hc, (own, inner), hs, h => by
+      have hn' : ch.noStream = true := by simpa [Shape.noStream] using hn
+      show Calm ch (step (.tfr ch) (own, inner) c).2
+      have one : ∀ c', c' ≠ Call.stop → (isBadAdd c' = false) → Calm ch (step ch inner c') := by
+        intro c' h1 h2
+        have := calm_steps ch hn' [c'] (by simpa using h1) inner (.inr (by simpa using h2)) h
+        simpa using this
+      cases c with
+      | add k t a =>
+        refine calm_steps ch hn' _ (tfrBlock_noStop own k t a) inner ?_ h
+        rcases hs with ⟨hf, _⟩ | hx
+        · exact .inl ⟨hf.2, tfrBlock_notFF own k t a⟩
+        · exact .inr (tfrBlock_noBad own k t a (by simpa [isBadAdd] using hx))
+      | startTestRun => exact one _ (by simp) rfl
+      | stopTestRun => exact one _ (by simp) rfl
+      | stop => exact absurd rfl hc
+      | done => exact one _ (by simp) rfl
+      | _ => exact h
+  | .multi ss, hn, c, hc, (own, inner), hs, h => by
+      have hn' : Shape.noStreamL ss = true := by simpa [Shape.noStream] using hn
+      show CalmL ss (step (.multi ss) (own, inner) c).2
+      have hq : ∀ b, Call.setFailfast b ≠ Call.stop ∧ isBadAdd (Call.setFailfast b) = false := fun b => ⟨by simp, rfl⟩
+      cases c with
+      | progress => exact h
+      | startTestRun =>
+        simp only [step]
+        have a1 := calmL_step ss hn' _ (hq false).1 inner (.inr (hq false).2) h
+        have a2 := calmL_step ss hn' _ (hq ((failfastL ss inner).headD false)).1 _ (.inr (hq _).2) a1
+        have a3 := calmL_restore ss hn' _ (failfastL ss inner) a2
+        exact calmL_step ss hn' .startTestRun (by simp) _ (.inr rfl) a3
+      | stop => exact absurd rfl hc
+      | _ =>
+        refine calmL_step ss hn' _ hc inner ?_ h
+        rcases hs with ⟨hf, hx⟩ | hx
+        · exact .inl ⟨hf, by simpa using hx⟩
+        · exact .inr (by simpa using hx)
+  | .e2s _, hn, _, _, _, _, _ => by simp [Shape.noStream] at hn
+theorem calmL_step : ∀ (ss : List Shape), Shape.noStreamL ss = true → ∀ (c : Call), c ≠ Call.stop →
+    ∀ (st : StL ss), ((FFreeL ss st ∧ notFFTrue c = true) ∨ isBadAdd c = false) → CalmL ss st → CalmL ss (stepL ss st c)
+  | [], _, _, _, _, _, _ => by intro l hl; simp [leavesL] at hl
+  | s :: ss, hn, c, hc, (x, xs), hs, h => by
+      simp only [Shape.noStreamL, Bool.and_eq_true] at hn
+      have hx : Calm s x := fun l hl => h l (by simp [leavesL, hl])
+      have hxs : CalmL ss xs := fun l hl => h l (by simp [leavesL, hl])
+      have a := calm_step s hn.1 c hc x (hs.imp (fun p => ⟨p.1.1, by simpa using p.2⟩) (fun p => by simpa using p)) hx
+      have b := calmL_step ss hn.2 c hc xs (hs.imp (fun p => ⟨p.1.2, p.2⟩) id) hxs
+      intro l hl
+      simp only [leavesL, stepL, List.mem_append] at hl
+      rcases hl with hl | hl
+      · exact a l hl
+      · exact b l hl
+theorem calmL_restore : ∀ (ss : List Shape), Shape.noStreamL ss = true → ∀ (st : StL ss) (saved : List Bool),
+    CalmL ss st → CalmL ss (restoreL ss st saved)
+  | [], _, _, _, _ => by intro l hl; simp [leavesL] at hl
+  | s :: ss, hn, (x, xs), saved, h => by
+      simp only [Shape.noStreamL, Bool.and_eq_true] at hn
+      have hx : Calm s x := fun l hl => h l (by simp [leavesL, hl])
+      have hxs : CalmL ss xs := fun l hl => h l (by simp [leavesL, hl])
+      have a := calm_step s hn.1 (.setFailfast (saved.headD false)) (by simp) x (.inr (by simp [isBadAdd])) hx
+      have b := calmL_restore ss hn.2 xs saved.tail hxs
+      intro l hl
+      simp only [leavesL, restoreL, List.mem_append] at hl
+      rcases hl with hl | hl
+      · exact a l hl
+      · exact b l hl
+end
+
 /-! ## the proved clauses of the executable specification hold of the model -/
 theorem obs_map (s : Shape) (st : St s) (h : List Call) (f : Obs → α) :
     ((states s st h).map (observe s)).map f = (states s st h).map (fun x => f (observe s x)) := by
